@@ -2,5 +2,6 @@ import PPModel.Base.Sexp
 import PPModel.Base.PyList
 import PPModel.Mod.LineCol
 import PPModel.Mod.PR
+import PPModel.Mod.PRSpec
 import PPModel.Driver.LineCol
 import PPModel.Driver.PR
